@@ -359,7 +359,12 @@ class Blank(ExcelType):
         return isinstance(value, (cls,) + cls.native_types) or value == ''
 
     def _sort_key(self, other):
-        return other.__Blank__()._sort_key(self)
+        blank = other.__Blank__()
+        if blank is None or isinstance(blank, Blank):
+            # Compared with another blank or with a type that has no blank
+            # value of its own (dates), a blank counts as zero.
+            blank = Number(0)
+        return blank._sort_key(self)
 
     def __and__(self, other):
         if isinstance(other, self.native_types + (Blank,)):
